@@ -25,6 +25,7 @@ CONSTANTS
   MaxTime = %d
   MaxOps = %d
   Lax = 0
+  MuteSw = {"s_no"}
   LongAgo <- %s
 %s
 PROPERTY DuplicateInert
@@ -180,6 +181,13 @@ class SwitchRun:
             sw, cb, state, ms, rid = self.keys.pop(s['id'])
             self.sc.remove_switch_handler(sw, cb, state=state, ms=ms)
             self.ev.append({'op': 'remove', 'id': rid, 'nested': bool(s.get('nested'))})
+        elif op == 'mute':
+            # Switch.mute / unmute (what ball search and drop targets do): changes are mirrored, handlers are not called
+            sw = self.m.switches[s['sw']]
+            if bool(s['m']) == bool(sw.is_muted):
+                return
+            (sw.mute if s['m'] else sw.unmute)(source='verif')
+            self.ev.append({'op': 'mute', 'sw': s['sw'], 'm': bool(s['m'])})
         elif op == 'report':
             self.ev.append({'op': 'report', 'sw': s['sw'], 'v': s['v'], 'logical': bool(s['logical'])})
             before = int(self.m.switches[s['sw']].state)
@@ -208,6 +216,7 @@ class SwitchRun:
         h = self.h
         # reset to the model's initial state, long before t0
         for s in SWS:
+            self.m.switches[s].unmute(source='verif')
             self.sc.process_switch_by_num(NUM[s], 0, self.m.switches[s].platform, logical=False)
         h.advance_time_and_run(60)
         _H['sink'][0] = self
@@ -243,6 +252,8 @@ class SwitchRun:
                 self.sync()
         finally:
             _H['sink'][0] = None
+            for s2 in SWS:
+                self.m.switches[s2].unmute(source='verif')
             for hid in list(self.keys):
                 sw, cb, state, ms, _rid = self.keys.pop(hid)
                 self.sc.remove_switch_handler(sw, cb, state=state, ms=ms)
@@ -269,6 +280,7 @@ def handmade(u):
     A = lambda i, sw, st, ms, nested=False: {'op': 'add', 'id': i, 'sw': sw, 'state': st, 'ms': ms, 'nested': nested}
     R = lambda sw, v, lg=False: {'op': 'report', 'sw': sw, 'v': v, 'logical': lg}
     T = {'op': 'tick'}
+    M = lambda sw, m: {'op': 'mute', 'sw': sw, 'm': m}
     return [
         # handler added after its deadline has passed must not fire at all
         [R('s_no', 1), T, T, T, A('h1', 's_no', 1, 2), T, T],
@@ -286,6 +298,10 @@ def handmade(u):
         # registered 0.4 ms before its original deadline (the schedule position makes this add a late one)
         [R('s_no', 1), T, T, T, A('h1', 's_no', 1, 4), T, T, T],
         [R('s_nc', 0), T, A('h1', 's_nc', 1, 2), T, T, T],
+        # a muted switch: its change is mirrored and voids the pending hold-time entry, no handler is called
+        [A('h1', 's_no', 1, 3), A('h2', 's_no', 0, 0), R('s_no', 1), T, M('s_no', True), R('s_no', 0), T, T, T, M('s_no', False), T],
+        [A('h1', 's_no', 1, 2), M('s_no', True), R('s_no', 1), T, T, T, M('s_no', False), R('s_no', 0), R('s_no', 1), T, T, T],
+        [A('h1', 's_no', 0, 2), R('s_no', 1), R('s_no', 0), T, M('s_no', True), R('s_no', 1), T, R('s_no', 0), M('s_no', False), T, T, T],
     ]
 
 
